@@ -1,4 +1,4 @@
-(* C01 — chain induction (repaired validator), answer()/authority() structure, tamper algebra,
+(* C01 — chain induction, answer()/authority() structure, tamper algebra,
    fail-closed without anchors, AD discipline toward the client. *)
 From Sdns Require Import Common.Base Gen.C01 C01.Model C01.Proofs_sig C01.Proofs_chain.
 Open Scope N_scope.
@@ -27,7 +27,7 @@ Section Chain.
     | (c, dm, km) :: rest =>
         c <> [] /\ own_query c km = true /\
         verify_rrsig (e_nrank E) (e_now E) z keys (m_ans dm) (m_ns dm) = (true, None) /\
-        verify_dnssec_fixed E c km (extract (m_ans dm) (Some c) T_DS) = (true, None) /\
+        verify_dnssec E c km (extract (m_ans dm) (Some c) T_DS) = (true, None) /\
         chain_ok c (keys_of_msg c km) rest
     end.
   Fixpoint last_keys (z : name) (keys : list key) (hops : list (name * msg * msg)) : name * list key :=
@@ -173,6 +173,46 @@ Theorem answer_ad_partial_lemma E qname qtype cd resp0 pds zone m :
 Proof.
   intros resp Hdn Hv Hin Had. eapply answer_ad_core; eauto.
 Qed.
+
+
+(* ------------------------------------------- answer(): AD=1 means zone-signed data *)
+Section AnswerSound.
+  Variable honest : name -> N -> Prop.
+  Variable zsigned : name -> signed -> Prop.
+
+  Lemma verify_dnssec_root_own E resp pds :
+    root_own [] resp = true -> verify_dnssec E [] resp pds = verify_root_keys E resp.
+  Proof.
+    unfold root_own, own_query, verify_dnssec. intros H. rewrite andb_true_r in H. rewrite H. reflexivity.
+  Qed.
+
+  Theorem answer_ad_sound_lemma E qname qtype cd resp0 pds zone m :
+    let resp := bailiwick zone resp0 in
+    (forall z l, unforgeable (honest z) (zsigned z) l) ->
+    (forall z l, publishes_own_keys (honest z) (zsigned z) l) ->
+    (forall k, In k (e_anchors E) -> honest [] (k_mat k)) ->
+    (forall z km, e_key E z = LMsg km -> forall k, In k (keys_of_msg z km) -> honest z (k_mat k)) ->
+    (forall s ds, find_ds E (Some s) qname pds false = Ok ds ->
+       forall d k, In d ds -> ds_binds d k -> honest s (k_mat k)) ->
+    dname_target resp = None ->
+    validate_answer E qname qtype cd resp0 pds zone = Accept m -> m_ad resp0 = false -> m_ad m = true ->
+    exists s, in_zone qname s = true /\
+      let dn := dnames_of s (m_ans resp) (m_ns resp) in
+      forall r, In r (m_ans resp) -> is_sig r = false -> is_synth dn r = false ->
+        in_zone (r_owner r) s = true /\
+        exists set, vouched_set (zsigned s) (e_now E) s (m_ans resp) (m_ns resp) dn r set.
+  Proof.
+    intros resp Hforge Hkeys Hanch Hstore Hprov Hdn Hv Hin Had.
+    destruct (answer_ad_core E qname qtype cd resp pds zone m Hdn Hv Hin Had) as (_ & _ & s & ds & _ & Hz & Hfd & _ & Hvd & _).
+    exists s. split; [exact Hz|]. cbn zeta.
+    destruct (root_own s resp) eqn:Ero.
+    - assert (s = []) as -> by (unfold root_own in Ero; apply andb_true_iff in Ero as [_ E1]; destruct s; [reflexivity|discriminate]).
+      rewrite (verify_dnssec_root_own E resp ds Ero) in Hvd.
+      exact (proj1 (verify_root_keys_sound (honest []) (zsigned []) E resp Hanch (Hforge [] _) Hvd)).
+    - refine (proj1 (verify_dnssec_sound_lemma (honest s) (zsigned s) E s resp ds Ero (Hprov s ds Hfd) _ (Hforge s _) Hvd)).
+      destruct (own_query s resp); [split; [apply Hforge|apply Hkeys]|apply Hstore].
+  Qed.
+End AnswerSound.
 
 (* unsigned data is accepted only when the zone is not secure or an insecure delegation is proven *)
 Theorem unsigned_only_when_insecure_lemma E qname qtype resp0 pds zone m :
